@@ -29,7 +29,17 @@ Parse(c) == IF c.ok # 1 THEN {"loader-rejects-wrapping"}
                  \cup (IF c.lF # c.F THEN {"loaded-flows"} ELSE {})
                  \cup (IF c.lD # c.D THEN {"loaded-distances"} ELSE {})
 
-Verdict(c) == IF c.kind = "eval" THEN Eval(c) ELSE Parse(c)
+\* many facilities, small entries: everything fits TLC's native integers (the BigNat clauses above are too slow
+\* beyond n ~ 40).  [n, F, D, sF, sD, lb, ub, perms: <<[p, val]>>] with native entries
+BigN(c) == (IF c.sF # c.F THEN {"stored-flows-differ"} ELSE {})
+           \cup (IF c.sD # c.D THEN {"stored-distances-differ"} ELSE {})
+           \cup UNION {LET e == c.perms[k] v == QapValueRows(c.F, c.D, e.p) IN
+                       IF ~IsPerm(e.p, c.n) THEN {"driver-bad-permutation"}
+                       ELSE (IF e.val # v THEN {"not-flow-distance-sum"} ELSE {})
+                            \cup (IF c.lb > v THEN {"true-value-below-declared-lower-bound"} ELSE {})
+                            \cup (IF v > c.ub THEN {"true-value-above-declared-upper-bound"} ELSE {})
+                       : k \in 1..Len(c.perms)}
+Verdict(c) == IF c.kind = "eval" THEN Eval(c) ELSE IF c.kind = "big" THEN BigN(c) ELSE Parse(c)
 Init == tid = 0
 Next == /\ tid < NCases /\ tid' = tid + 1
         /\ PrintT(<<"V", Cases[tid'].id, Verdict(Cases[tid'])>>)
